@@ -17,15 +17,13 @@ REQUIRED_THEOREMS = ["Gv.Props.C05." + n for n in [
     "geneticCode_dispatch", "translateCodon_eq_spec", "translate_length", "translate_error_iff",
     "translate_residue", "gap_codon", "codon_gap_iff", "translate_eq_codons",
     "codonAlign_rows", "codonAlign_length", "codonAlign_ungapped_rows", "codonAlign_translates_back", "codonAlign_error_iff",
-    "byRef_rectangular", "byRef_eq_translate_of_no_gaps_partial", "byRef_short_returns_empty_rows",
-    "byRef_no_gaps_counterexample", "byRef_ref_row_prefix",
+    "byRef_rectangular", "byRef_eq_translate_of_no_gaps", "byRef_short_is_error", "byRef_negative_phase_is_error", "byRef_ref_row_prefix",
     "byRef_error_iff", "three_frames_names_and_count", "one_frame_names_and_count", "alignTranslate_length"]]
-PARTIAL = ["TranslateByReference vs plain translation on an alignment without gaps that is shorter than 3+phase: plain translation is an "
-           "error, the reference-guided one returns rows without residues (theorem byRef_short_returns_empty_rows; both behaviours are "
-           "modelled as they are and confirmed on the implementation, tag byref-*; kernel-checked instance byRef_no_gaps_counterexample); byRef_eq_translate_of_no_gaps_partial therefore speaks about "
-           "the rows on which plain translation succeeds",
-           "TranslateByReference is modelled for phase >= 0 (a negative phase indexes the reference row at -1: run-time panic, outside the "
-           "property's frames 0,1,2); rows are assumed to have the length of the reference row (alignment invariant, C01)",
+PARTIAL = ["TranslateByReference on an alignment shorter than 3+phase (rows without residues instead of the error of Translate) and "
+           "with a negative phase (index panic; reachable from the command line with --phase -1 --ref-seq) were genuine defects: "
+           "repaired (fix: commits), model and theorems follow the repaired code (byRef_short_is_error, "
+           "byRef_negative_phase_is_error, byRef_eq_translate_of_no_gaps now without caveat); rows are assumed to have the length "
+           "of the reference row (alignment invariant, C01)",
            "SeqBag.Translate renames colliding output names (name_0001 ...): collisions between '<a>_0' style names and existing names are "
            "not modelled (oracle: unmodelled)"]
 RULE = ("CodonAlign: 1..4 rows, protein rows = gapped translations of random A/C/G/T sequences with 0..2 trailing bases, plus too "
@@ -158,11 +156,28 @@ def gen_byref(rng, tier):
                     r += rng.choice(["-", "--", "---", "----"]) if rng.random() < 0.4 else "".join(rng.choice(al) for _ in range(rng.randint(1, 4)))
                 r = r[:L]
             rows.append(r)
+        if kind != "nogap" and rng.random() < 0.3 and L >= 2:
+            # reference ending with 1 or 2 bases of an incomplete codon followed by gaps up to the last column
+            k = rng.randint(1, min(3, L - 1))
+            left = rng.randint(1, 2)
+            rows[0] = (rows[0][:max(0, L - k - left)] + "".join(rng.choice("ACGT") for _ in range(left)) + "-" * k)[-L:] if L - k - left >= 0 else rows[0]
         ref = rng.choice(["s%d" % rng.randrange(n)] * 8 + ["zz", ""])
-        ph = rng.choice([0, 0, 0, 1, 2])
+        ph = rng.choice([0, 0, 0, 0, 0, 1, 2, -1])
         code = rng.choice([0, 1, 2, 0, 1, 2, 7])
         rs = ",".join("s%d:%s" % (i, r) for i, r in enumerate(rows))
         yield Case("byref", [ph, code, ref, rs], L >= 3 and ref.startswith("s"), "byref-" + kind)
+    # references whose last codon is incomplete and followed by gaps only (every placement of 1..2 bases + 1..3 gaps)
+    for _ in range(N // 4):
+        ncod = rng.randint(1, 4)
+        body = "".join(rng.choice("ACGT") for _ in range(3 * ncod))
+        if rng.random() < 0.4:
+            j = rng.randrange(len(body))
+            body = body[:j] + "-" * rng.randint(1, 3) + body[j:]
+        refrow = body + "".join(rng.choice("ACGT") for _ in range(rng.randint(1, 2))) + "-" * rng.randint(1, 3)
+        L = len(refrow)
+        others = ["".join(rng.choice("ACGT-") for _ in range(L)) for _ in range(rng.randint(0, 2))]
+        rs = ",".join("s%d:%s" % (i, r) for i, r in enumerate([refrow] + others))
+        yield Case("byref", [0, rng.randint(0, 2), "s0", rs], True, "byref-trailing-gaps")
 
 
 def _rows(s):
